@@ -413,10 +413,16 @@ impl Annotated<Schema> {
                         )
                     });
 
-                collect_type_parameters(type_parameters, &data_type.typed_parameters, args);
+                // The parameters of this type are bound for its own definition only. The
+                // caller's bindings stay as they are: they may bind the very same parameters
+                // (a type instantiated at itself, e.g. `P<P<Int>>`) and are needed again for
+                // the caller's remaining fields.
+                let mut type_parameters = type_parameters.clone();
+
+                collect_type_parameters(&mut type_parameters, &data_type.typed_parameters, args);
 
                 let annotated = Schema::Data(
-                    Data::from_data_type(&data_type, modules, type_parameters, definitions)
+                    Data::from_data_type(&data_type, modules, &mut type_parameters, definitions)
                         .map_err(|e| e.backtrack(type_info))?,
                 );
 
